@@ -5,6 +5,7 @@ CONSTANTS
   FixPred = TRUE
   FixLeave = TRUE
   FixWrap = TRUE
+  FixDead = TRUE
   MaxTry = 3
   TrackCov = FALSE
   Goal = "none"
